@@ -538,6 +538,8 @@ class Fn:
         if t["k"] != "switch":
             return (("unknown",), label)
         o = self.origin(t["discr"])
+        if o[0] == "multi":
+            o = self._reaching_origin(t["discr"], a) or o
         if o[0] == "discr":
             variants = o[2]
             if label == "otherwise":
@@ -560,6 +562,55 @@ class Fn:
             elif label == "otherwise" and vals == [1]:
                 lab = "false"
         return (o, lab)
+
+    def _reaching_origin(self, op, b):
+        """origin of a multiply-defined local as seen at block b: only the definitions that can reach b without being overwritten count (after
+        jump threading the constant definitions of a materialised bool no longer reach the original switch)"""
+        pl = op_place(op)
+        if pl is None or pl.get("p"):
+            return None
+        l = pl["l"]
+        ds = self.defs.get(l, [])
+        hops = 0
+        while len(ds) == 1 and ds[0][0] == "stmt" and ds[0][3]["k"] == "use" and hops < 8:
+            q = op_place(ds[0][3]["op"])
+            if q is None or q.get("p"):
+                return None
+            l = q["l"]
+            ds = self.defs.get(l, [])
+            hops += 1
+        if len(ds) < 2:
+            return None
+        def_blocks = {d[1] for d in ds if d[0] in ("stmt", "call")}
+        reaching = []
+        for d in ds:
+            if d[0] == "arg":
+                reaching.append(d)
+                continue
+            start = d[1]
+            # a definition in b itself (before the terminator) reaches
+            if start == b:
+                reaching.append(d)
+                continue
+            seen = set()
+            work = [y for y in self.succ[start]] if d[0] == "stmt" else ([d[2].target] if d[2].target is not None else [])
+            hit = False
+            while work and not hit:
+                x = work.pop()
+                if x in seen:
+                    continue
+                seen.add(x)
+                if x == b:
+                    hit = True
+                    break
+                if x in def_blocks and x != start:
+                    continue        # overwritten there
+                work.extend(self.succ[x])
+            if hit:
+                reaching.append(d)
+        if len(reaching) == 1:
+            return self._origin_def(reaching[0], l, 10, {l})
+        return None
 
     def _operand_ty(self, op):
         p = op_place(op)
